@@ -190,6 +190,9 @@ def _wellformed(m, a, b, nh, nb, s1, s2, bl, dn=0):
         allb = list(lines)
         if bl == 2:
             allb += ["\\n"] * nb + _block("g2", es2, 1, 0, [], 2)
+        if bl == 2 and sps:
+            # a third block that repeats the first block word for word (also its '#S' lines): it must yield the same graph again
+            allb += _block("g1", es, nh, nb, sps, max(1, len(nodes) + dn))
         # read_graphs opens a file: serve the text from memory (CrossHair blocks real file writes)
         import io
         text = "".join(allb)
@@ -198,6 +201,10 @@ def _wellformed(m, a, b, nh, nb, s1, s2, bl, dn=0):
             Gs = gu.read_graphs("in-memory.graph")
         finally:
             del gu.open
+        if bl == 2 and sps:
+            if len(Gs) != 3 or not _expect(Gs[2], "g1", es, sps):
+                return False
+            Gs = Gs[:2]
         if len(Gs) != bl or not _expect(Gs[0], "g1", es, sps):
             return False
         if bl == 2 and not _expect(Gs[1], "g2", es2, []):
